@@ -142,6 +142,15 @@ CHECKS = {
               "parse_reporter vs from_str) and vs the extracted parser."),
         design_ref='DESIGN.md section 7 / C17',
         technique='Coq proof (exhaustive case analysis of the typed dispatch, universally quantified oracles) + differential correspondence'),
+    'C05': dict(
+        text=("PARTIAL proof + per-instance validation. Proved (Coq): a sorted diagram is the disjunction of its root-to-TRUE paths (the structure "
+              "collect_dnf walks), for every valuation. NOT modelled: the per-edge encodings of ranges as comparison expressions (range_inequality, star "
+              "recognition, from_release_only_bounds) and the heuristic clause/term simplifier; the text parser is modelled (C06/C07). Instead, for every marker of "
+              "the run the clauses of to_dnf() are recompiled (OR of ANDs) with the extracted proved operations and must give back the identical canonical diagram, "
+              "and Display/try_to_string/contents()/serde text must parse back to an == marker (FALSE and deprecated spellings: equivalent on final-release "
+              "environments) - translation validation per instance, not a universal theorem about the simplifier."),
+        design_ref='DESIGN.md section 7 / C05',
+        technique='Coq proof of the path decomposition + translation validation of each rendered DNF/text through the proved compile (canonicity)'),
 }
 
 PENDING = {}
@@ -177,7 +186,7 @@ for pid, c in sorted(CHECKS.items()):
         'evidence_file': '/verif/evidence/%s.json' % pid,
         'replay_cmd_template': './check %s --replay {path}' % pid,
         'engine': 'coq-model',
-        'level_claimed': {'category': 'proof', 'text': c['text'], 'design_ref': c['design_ref']},
+        'level_claimed': {'category': c.get('category', 'proof'), 'text': c['text'], 'design_ref': c['design_ref']},
         'level_note': LEVEL_NOTE,
         'technique': c['technique'],
     })
